@@ -14,6 +14,7 @@ import traceback
 from asyncio import CancelledError
 
 import core
+import tiegen
 
 # op codes (MemStream.decode_op); 12/13 = Send/Recv with the puppet inside a fresh anyio.CancelScope
 SENDNW, RECVNW, SEND, RECV, CLONE, CLOSE, RESUME, CANCEL, SCANCEL, DELIVER = range(10)
@@ -1031,6 +1032,13 @@ def shrink(maxbuf, ntasks, ops, prop):
     return cur, best[0], best[1]
 
 
+TIE_FILES = ("prims/MemGen.v", "prims/MemGenEq.v")
+TIE_HELPERS = {"wloop_pop_live": "snd_send_nowait_entry (the pop loop with the pending-cancellation skip)",
+               "send_nowait_sim": "snd_send_nowait_entry", "recv_nowait_sim": "rcv_receive_nowait_entry",
+               "for_keys_set": "close (the wake-up loop)", "step_runs_generated": "dispatch (whole machine)",
+               "cancelled_entry_noeffect": "snd_send_entry / rcv_receive_entry"}
+
+
 def check(prop: str, tier: str) -> int:
     rep = core.Report(prop, tier)
     rep.assumptions = core.TRUSTED_BASE_COMMON + [
@@ -1038,12 +1046,22 @@ def check(prop: str, tier: str) -> int:
         "_asyncio.py:2238-2253 (has_pending_cancellation); cancellation modelled as native Task.cancel() on a blocked "
         "task (op Cancel) and as CancelScope.cancel() of a scope entered around the blocked call (op ScopeCancel, "
         "which by _asyncio.py:605-607 never cancels a task whose waiter future is done)",
+        "tie T: tools/translate_mem.py (python ast -> coq/prims/MemGen.v; fail-closed tables in the script) regenerates the segments of MemoryObjectSendStream.send_nowait/send/clone/close and MemoryObjectReceiveStream.receive_nowait/receive/clone/close (send/receive cut at `await checkpoint()` and at `await <event>.wait()`, the finally block of receive copied into both continuations) on every run and checks the dataclass fields, __post_init__, aclose, statistics, __enter__/__exit__ and _MemoryObjectStreamState literally; MemGenEq.v proves that interpreting them (prims/MemImp.v) is MemStream.step on everything the code reads and writes (buffer, open-channel counters, both wait queues, receiver item slots, the waiter futures of the events, the object's _closed flag; pointwise on function-valued fields), with step_runs_generated / grun_iff_reach for the whole machine. Trusted in it: the translator's tables, CPython await/exception semantics at the cut points (MemImp.dispatch: which continuation runs, locals persist; the exception raised at <event>.wait() is CancelledError), the Event created by a blocked call modelled as its single waiter future, TaskInfo.has_pending_cancellation() as an oracle (= MemStream.has_pending), OrderedDict/deque semantics (append at the end for a fresh key, popitem(last=False), pop(k, None)). The ghost fields of the model are not tied (history variables never read by the code). Not the only tie: the same model is co-simulated against the running code below",
         "items are distinct integers chosen by the harness (the theorems assume fresh item ids, enforced by the model)",
     ]
     import time as _time
     stage_t = {}
     _t0 = _time.time()
-    proofs_ok = core.proof_stage(rep, f"props/{prop}.v")
+    # tie T: regenerate MemGen.v from the source under test, then rebuild the cone of props/<prop>.v, under the `tiegen`
+    # lock (harness/tiegen.py)
+    t_rc, t_out, proofs_ok = tiegen.translate_and_prove(rep, f"props/{prop}.v", "translate_mem.py")
+    tie_T, tie_T_broken = tiegen.describe(rep, t_rc, t_out, proofs_ok, TIE_FILES, TIE_HELPERS)
+    tie_T["translator"] = "tools/translate_mem.py (python ast -> coq/prims/MemGen.v, fail closed)"
+    tie_T["equality_theorems"] = ("MemGenEq.v: tie_send_nowait, tie_recv_nowait, tie_send_entry, tie_send_ck_{resumed,cancelled}, "
+                                  "tie_send_event_{resumed,cancelled}, tie_recv_entry, tie_recv_ck_{resumed,cancelled}, "
+                                  "tie_recv_event_{resumed,cancelled}, tie_clone, tie_close, step_runs_generated, grun_iff_reach "
+                                  "(props C12_tie_* / C13_tie_*)")
+    rep.coverage["tie_T"] = tie_T
     stage_t["proofs_make_gate_print_assumptions"] = round(_time.time() - _t0, 1)
     _t0 = _time.time()
     exe = core.build_driver("memstream", "MemStream")
@@ -1142,6 +1160,7 @@ def check(prop: str, tier: str) -> int:
     tie_broken = []
     if not proofs_ok:
         tie_broken.append("proof obligation: " + str(rep.coverage.get("proof_failure", {}).get("where")))
+        tie_broken += tie_T_broken
     if disagreements:
         tie_broken.append("correspondence MemStream.run_case vs anyio memory object streams")
     if rejected:
@@ -1160,7 +1179,7 @@ def check(prop: str, tier: str) -> int:
             c0 = min(crashed, key=lambda r: len(r.ops))
             d = {"maxbuf": c0.maxcode(), "ntasks": c0.ntasks, "ops": c0.ops, "ops_readable": readable(c0.ops),
                  "harness_traceback": c0.crash}
-        rep.violation("; ".join(tie_broken), {"kind": "tie", "broken": tie_broken, "case": d,
+        rep.violation("; ".join(tie_broken), {"kind": "tie", "broken": tie_broken, "case": d, "tie_T": tie_T,
                                                "monitor_hits_of_the_sibling_property": other_hits}, no_input=True)
 
     _t0 = _time.time()
